@@ -364,8 +364,9 @@ Proof.
   destruct He as [He Hx]. unfold hehf_list. rewrite He.
   apply (find_not_None _ _ hf); [apply Hx; auto|].
   apply ext_match_true. split; [exact Hl|]. intros i Hi. fold hes. fold n.
-  unfold ext_offset. rewrite (ext_offset_from_NoDup h hes 0 0 k Hnd Hkl eq_refl). simpl.
-  rewrite <- hf_vertices_nth by (fold hes; rewrite Hl; apply Nat.mod_upper_bound; lia). apply R. exact Hi.
+  unfold ext_offset. rewrite (ext_offset_from_NoDup h hes 0 0 k Hnd Hkl eq_refl). rewrite Nat.add_0_l.
+  pose proof (R i Hi) as Ri.
+  rewrite hf_vertices_nth in Ri by (fold hes; rewrite Hl; apply Nat.mod_upper_bound; lia). exact Ri.
 Qed.
 
 (* for triangles the documented prefix relation IS the full relation *)
@@ -374,11 +375,13 @@ Theorem R_halfface_consec_ext_triangle s v0 v1 v2 hf :
 Proof.
   intros H3 [L [i [Hi [A [B C]]]]]. rewrite hf_vertices_length, H3 in *.
   split; [exact L|]. split; [exact H3|]. exists i. split; [exact Hi|]. simpl length.
-  intros j Hj. rewrite circ_next_mod in B, C by (try apply Nat.mod_upper_bound; lia).
-  destruct j as [|[|[|j]]]; try lia; simpl nth.
-  - rewrite Nat.mod_small by lia. exact A.
-  - replace (1 + i) with (i + 1) by lia. exact B.
-  - rewrite <- C. f_equal. rewrite Nat.add_mod_idemp_l by lia. f_equal. lia.
+  pose proof (circ_next_lt 3 i Hi) as Hi'.
+  rewrite (circ_next_mod 3 (circ_next 3 i) Hi') in C. rewrite (circ_next_mod 3 i Hi) in B, C.
+  intros j Hj.
+  destruct j as [|[|[|j]]]; try lia.
+  - change (nth 0 [v0; v1; v2] 0) with v0. rewrite Nat.add_0_l, Nat.mod_small by lia. exact A.
+  - change (nth 1 [v0; v1; v2] 0) with v1. replace (1 + i) with (i + 1) by lia. exact B.
+  - change (nth 2 [v0; v1; v2] 0) with v2. rewrite <- C. f_equal. rewrite Nat.add_mod_idemp_l by lia. f_equal. lia.
 Qed.
 
 (* ================================================================== next / prev_halfedge_in_halfface *)
@@ -498,4 +501,290 @@ Proof.
     specialize (E (nth i (halfface s hf) 0) (nth_In _ _ Hi)). unfold fhfc_he in E.
     rewrite (next_NoDup s hf i (Hnd hf Hin) Hi) in E. simpl rd in E.
     rewrite A, B, C, !Nat.eqb_refl in E. simpl in E. discriminate.
+Qed.
+
+(* ================================================================== get_halfface_vertices *)
+
+Lemma hfv_cur_spec s hf i :
+  i < length (halfface s hf) -> hfv_cur s hf i = nth i (hf_vertices s hf) 0.
+Proof.
+  intros Hi. rewrite hf_vertices_nth by exact Hi. rewrite halfface_length in Hi.
+  unfold hfv_cur, halfface. destruct (Nat.even hf); [reflexivity|].
+  set (f := face_at s (hf / 2)) in *.
+  rewrite rev_nth by (rewrite map_length; exact Hi). rewrite map_length.
+  rewrite (nth_indep (map opp f) 0 (opp 0)) by (rewrite map_length; lia). rewrite map_nth, he_from_opp.
+  f_equal. f_equal. lia.
+Qed.
+
+Lemma map_nth_seq (l : list nat) : forall k m, k + m <= length l ->
+  map (fun j => nth j l 0) (seq k m) = firstn m (skipn k l).
+Proof.
+  induction l as [|x t IH]; intros k m H; simpl in H.
+  - assert (m = 0) by lia. subst. destruct k; reflexivity.
+  - destruct k as [|k].
+    + destruct m as [|m]; [reflexivity|]. simpl. f_equal.
+      rewrite <- seq_shift, map_map. rewrite (IH 0 m) by lia. reflexivity.
+    + simpl skipn. rewrite <- (IH k m) by lia. rewrite <- seq_shift, map_map. reflexivity.
+Qed.
+
+Theorem get_halfface_vertices_spec s hf : get_halfface_vertices s hf = hf_vertices s hf.
+Proof.
+  unfold get_halfface_vertices. rewrite <- halfface_length.
+  rewrite (map_ext_in _ (fun j => nth j (hf_vertices s hf) 0)).
+  - rewrite map_nth_seq by (rewrite hf_vertices_length; lia). simpl skipn.
+    rewrite <- hf_vertices_length. apply firstn_all.
+  - intros j Hj. apply in_seq in Hj. apply hfv_cur_spec. lia.
+Qed.
+
+(* the second loop: m pushes starting at index i without passing the end of the cycle *)
+Lemma ghv_take_seg s hf : forall m i, i + m <= length (halfface s hf) ->
+  ghv_take s hf (length (halfface s hf)) m i = map (fun j => nth j (hf_vertices s hf) 0) (seq i m).
+Proof.
+  induction m as [|m IH]; intros i H; [reflexivity|]. simpl. f_equal; [apply hfv_cur_spec; lia|].
+  destruct m as [|m]; [reflexivity|].
+  replace (circ_next (length (halfface s hf)) i) with (S i).
+  - apply IH. lia.
+  - unfold circ_next. destruct (Nat.eqb_spec (S i) (length (halfface s hf))); [lia|reflexivity].
+Qed.
+
+(* ... and passing it once *)
+Lemma ghv_take_wrap s hf : forall d k m, k + d = length (halfface s hf) -> 0 < d ->
+  ghv_take s hf (length (halfface s hf)) (d + m) k
+  = map (fun j => nth j (hf_vertices s hf) 0) (seq k d) ++ ghv_take s hf (length (halfface s hf)) m 0.
+Proof.
+  induction d as [|d IH]; intros k m H Hd; [lia|]. simpl. f_equal; [apply hfv_cur_spec; lia|].
+  destruct d as [|d].
+  - simpl. replace (circ_next (length (halfface s hf)) k) with 0; [reflexivity|].
+    unfold circ_next. destruct (Nat.eqb_spec (S k) (length (halfface s hf))); [reflexivity|lia].
+  - replace (circ_next (length (halfface s hf)) k) with (S k).
+    + apply IH; lia.
+    + unfold circ_next. destruct (Nat.eqb_spec (S k) (length (halfface s hf))); [lia|reflexivity].
+Qed.
+
+Lemma ghv_take_rot s hf k : k < length (halfface s hf) ->
+  ghv_take s hf (length (halfface s hf)) (length (halfface s hf)) k
+  = skipn k (hf_vertices s hf) ++ firstn k (hf_vertices s hf).
+Proof.
+  intros Hk. set (n := length (halfface s hf)) in *.
+  replace (ghv_take s hf n n k) with (ghv_take s hf n ((n - k) + k) k) by (f_equal; lia).
+  unfold n. rewrite ghv_take_wrap by (fold n; lia). rewrite ghv_take_seg by lia. fold n.
+  rewrite !map_nth_seq by (rewrite hf_vertices_length; fold n; lia). simpl skipn. f_equal.
+  apply firstn_all2. rewrite skipn_length, hf_vertices_length. fold n. lia.
+Qed.
+
+(* the first loop: the first position of v in the remaining part of the lap, or 0 after a fruitless lap *)
+Lemma ghv_seek_spec s hf v : forall m i,
+  i + m = length (halfface s hf) -> 0 < m ->
+  (forall j, j < i -> nth j (hf_vertices s hf) 0 <> v) ->
+  let r := ghv_seek s hf v (length (halfface s hf)) m i in
+  (r < length (halfface s hf) /\ nth r (hf_vertices s hf) 0 = v /\ forall j, j < r -> nth j (hf_vertices s hf) 0 <> v)
+  \/ (r = 0 /\ forall j, j < length (halfface s hf) -> nth j (hf_vertices s hf) 0 <> v).
+Proof.
+  induction m as [|m IH]; intros i H Hm Hbefore; [lia|]. cbv zeta. simpl.
+  rewrite hfv_cur_spec by lia.
+  destruct (Nat.eqb_spec (nth i (hf_vertices s hf) 0) v) as [E|E].
+  - left. split; [lia|]. split; [exact E|exact Hbefore].
+  - destruct m as [|m].
+    + right. simpl. unfold circ_next. destruct (Nat.eqb_spec (S i) (length (halfface s hf))); [|lia].
+      split; [reflexivity|]. intros j Hj. destruct (Nat.eq_dec j i) as [->|N]; [exact E|]. apply Hbefore. lia.
+    + replace (circ_next (length (halfface s hf)) i) with (S i)
+        by (unfold circ_next; destruct (Nat.eqb_spec (S i) (length (halfface s hf))); [lia|reflexivity]).
+      apply (IH (S i)); [lia|lia|]. intros j Hj. destruct (Nat.eq_dec j i) as [->|N]; [exact E|]. apply Hbefore. lia.
+Qed.
+
+(* get_halfface_vertices(hf, v): the vertex cycle rotated to start at the FIRST occurrence of v;
+   the unrotated cycle if v is not a vertex of the halfface *)
+Theorem get_halfface_vertices_v_spec s hf v :
+  let vs := hf_vertices s hf in
+  (In v vs -> exists k, k < length vs /\ nth k vs 0 = v /\ (forall j, j < k -> nth j vs 0 <> v) /\
+                        get_halfface_vertices_v s hf v = skipn k vs ++ firstn k vs) /\
+  (~ In v vs -> get_halfface_vertices_v s hf v = vs).
+Proof.
+  cbv zeta. unfold get_halfface_vertices_v. rewrite <- halfface_length.
+  set (n := length (halfface s hf)).
+  destruct (Nat.eq_dec n 0) as [Z|NZ].
+  - assert (hf_vertices s hf = []) by (apply length0_nil; rewrite hf_vertices_length; exact Z).
+    rewrite H, Z. simpl. split; [intros []|reflexivity].
+  - pose proof (ghv_seek_spec s hf v n 0 ltac:(unfold n; lia) ltac:(lia) ltac:(intros j Hj; lia)) as S.
+    cbv zeta in S. fold n in S. set (r := ghv_seek s hf v n n 0) in *.
+    assert (Z0 : ghv_take s hf n n 0 = hf_vertices s hf).
+    { unfold n. rewrite ghv_take_rot by (fold n; lia). simpl. rewrite app_nil_r. reflexivity. }
+    destruct S as [[Hr [Ev Hfirst]]|[Hr Hnone]].
+    + split.
+      * intros _. exists r. rewrite hf_vertices_length. fold n. repeat split; auto.
+        unfold n. apply ghv_take_rot. exact Hr.
+      * intros Hn. exfalso. apply Hn. rewrite <- Ev. apply nth_In. rewrite hf_vertices_length. exact Hr.
+    + rewrite Hr. split; [|intros _; exact Z0].
+      intros Hin. exfalso. destruct (In_nth _ _ 0 Hin) as [j [Hj Ej]]. rewrite hf_vertices_length in Hj.
+      exact (Hnone j Hj Ej).
+Qed.
+
+Theorem get_halfface_vertices_he_spec s hf he :
+  get_halfface_vertices_he s hf he = get_halfface_vertices_v s hf (he_from s he).
+Proof. reflexivity. Qed.
+
+(* the result is always a rotation of the vertex cycle: same length, same members *)
+Corollary get_halfface_vertices_v_rotation s hf v :
+  exists k, k <= length (hf_vertices s hf) /\
+            get_halfface_vertices_v s hf v = skipn k (hf_vertices s hf) ++ firstn k (hf_vertices s hf).
+Proof.
+  destruct (get_halfface_vertices_v_spec s hf v) as [A B].
+  destruct (in_dec Nat.eq_dec v (hf_vertices s hf)) as [Hin|Hn].
+  - destruct (A Hin) as [k [Hk [_ [_ E]]]]. exists k. split; [lia|exact E].
+  - exists 0. split; [lia|]. rewrite (B Hn). simpl. rewrite app_nil_r. reflexivity.
+Qed.
+
+(* ================================================================== is_incident *)
+
+Theorem is_incident_spec s f e : is_incident s f e = true <-> exists h, In h (face_at s f) /\ h / 2 = e.
+Proof.
+  unfold is_incident. rewrite existsb_exists. split; intros [h [Hin E]]; exists h; split; auto.
+  - apply Nat.eqb_eq. exact E.
+  - apply Nat.eqb_eq. exact E.
+Qed.
+
+(* ================================================================== n_vertices_in_cell *)
+
+Definition cell_vertex (s : mesh) (c v : nat) : Prop :=
+  exists hf he, In hf (cell_at s c) /\ In he (halfface s hf) /\ he_to s he = v.
+
+(* the number of distinct vertices the halfedges of the cell's halffaces point to *)
+Theorem n_vertices_in_cell_spec s c l :
+  NoDup l -> (forall v, In v l <-> cell_vertex s c v) -> n_vertices_in_cell s c = length l.
+Proof.
+  intros Hnd Hl. unfold n_vertices_in_cell. apply NoDup_same_length; [apply set_of_list_NoDup|exact Hnd|].
+  intros v. rewrite set_of_list_In, Hl, in_map_iff. unfold cell_vertex. split.
+  - intros [he [E Hin]]. apply in_concat in Hin. destruct Hin as [hes [Hhes Hhe]].
+    apply in_map_iff in Hhes. destruct Hhes as [hf [<- Hhf]]. eauto.
+  - intros [hf [he [A [B C]]]]. exists he. split; [exact C|]. apply in_concat. exists (halfface s hf).
+    split; [apply in_map; exact A|exact B].
+Qed.
+
+(* with closed faces these are all the vertices the cell's edges touch *)
+Lemma cell_vertex_from s c hf he :
+  closed_face s hf -> In hf (cell_at s c) -> In he (halfface s hf) -> cell_vertex s c (he_from s he).
+Proof.
+  intros Hc Hin Hhe. destruct (In_nth _ _ 0 Hhe) as [i [Hi Ei]].
+  set (l := halfface s hf) in *. set (n := length l) in *.
+  (* the predecessor of position i points to he's from-vertex *)
+  set (p := circ_prev n i).
+  assert (Hp : p < n) by (unfold p, circ_prev; destruct (Nat.eqb_spec i 0); lia).
+  assert (Hpi : circ_next n p = i).
+  { unfold p, circ_prev, circ_next. destruct (Nat.eqb_spec i 0) as [->|N].
+    - destruct (Nat.eqb_spec (S (n - 1)) n); lia.
+    - destruct (Nat.eqb_spec (S (i - 1)) n); lia. }
+  exists hf, (nth p l 0). split; [exact Hin|]. split; [apply nth_In; exact Hp|].
+  pose proof (closed_cycle_next s l p Hc Hp) as C. fold n in C. rewrite C, Hpi, Ei. reflexivity.
+Qed.
+
+(* ================================================================== checking the hypotheses on a concrete state *)
+(* Boolean checkers with soundness lemmas, used for the non-vacuity examples and the refutation witnesses
+   (states built by [run]); B bounds the halfedge handles that occur. *)
+
+Definition vbu_check (s : mesh) : bool :=
+  vbu s && (length (out_hes s) <=? nv s)
+  && forallb (fun e => (fst e <? nv s) && (snd e <? nv s)) (edges s)
+  && forallb (forallb (fun h => h <? 2 * ne s)) (out_hes s)
+  && forallb (fun v => forallb (fun h => Bool.eqb (memb h (out_at s v)) (live_he s h && (he_from s h =? v)))
+                               (seq 0 (2 * ne s))) (seq 0 (nv s)).
+
+Lemma nth_In_or_default {A} (l : list A) i d : In (nth i l d) l \/ nth i l d = d.
+Proof. destruct (Nat.lt_ge_cases i (length l)); [left; apply nth_In; assumption | right; apply nth_overflow; assumption]. Qed.
+
+Lemma live_he_bound s h : live_he s h = true -> h < 2 * ne s.
+Proof.
+  unfold live_he, live_e. intros L. apply andb_true_iff in L. destruct L as [L _]. apply Nat.ltb_lt in L. lia.
+Qed.
+
+Lemma vbu_check_sound s : vbu_check s = true -> vbu_exact s.
+Proof.
+  unfold vbu_check. rewrite !andb_true_iff. intros [[[[Hv Hlen] Hedges] Hout] Htab].
+  apply Nat.leb_le in Hlen. rewrite forallb_forall in Hedges, Hout, Htab.
+  split; [exact Hv|]. intros v h.
+  assert (Hin_bound : In h (out_at s v) -> h < 2 * ne s /\ v < nv s).
+  { intros Hin. unfold out_at in Hin. destruct (nth_In_or_default (out_hes s) v []) as [Hm|Hd].
+    - specialize (Hout _ Hm). rewrite forallb_forall in Hout. specialize (Hout h Hin). apply Nat.ltb_lt in Hout.
+      split; [exact Hout|]. destruct (Nat.lt_ge_cases v (nv s)); [assumption|].
+      rewrite nth_overflow in Hin by lia. destruct Hin.
+    - rewrite Hd in Hin. destruct Hin. }
+  assert (Hfrom_bound : live_he s h = true -> he_from s h < nv s).
+  { intros L. pose proof (live_he_bound s h L) as Hb. unfold he_from, edge_at.
+    assert (Hm : In (nth (h / 2) (edges s) (0, 0)) (edges s)) by (apply nth_In; unfold ne in Hb; lia).
+    specialize (Hedges _ Hm). destruct (nth (h / 2) (edges s) (0, 0)) as [a b]. simpl in Hedges.
+    apply andb_true_iff in Hedges. destruct Hedges as [Ha Hb']. apply Nat.ltb_lt in Ha. apply Nat.ltb_lt in Hb'.
+    destruct (Nat.even h); assumption. }
+  assert (K : h < 2 * ne s -> v < nv s -> (In h (out_at s v) <-> live_he s h = true /\ he_from s h = v)).
+  { intros Hh Hvv. specialize (Htab v ltac:(apply in_seq; lia)). rewrite forallb_forall in Htab.
+    specialize (Htab h ltac:(apply in_seq; lia)). apply eqb_prop in Htab.
+    rewrite <- memb_In, Htab, andb_true_iff, Nat.eqb_eq. reflexivity. }
+  split.
+  - intros Hin. destruct (Hin_bound Hin). apply K; assumption.
+  - intros [L F]. apply K; [exact (live_he_bound s h L)|rewrite <- F; exact (Hfrom_bound L)|auto].
+Qed.
+
+Definition ebu_check (s : mesh) : bool :=
+  ebu s && (length (inc_hfs s) <=? 2 * ne s)
+  && forallb (forallb (fun h => h <? 2 * ne s)) (faces s)
+  && forallb (forallb (fun hf => hf <? 2 * nf s)) (inc_hfs s)
+  && forallb (fun h => forallb (fun hf => Bool.eqb (memb hf (hfs_at s h)) (live_hf s hf && memb h (halfface s hf)))
+                               (seq 0 (2 * nf s))) (seq 0 (2 * ne s)).
+
+Lemma opp_lt_even_bound h n : h < 2 * n -> opp h < 2 * n.
+Proof. intros H. rewrite opp_spec. lia. Qed.
+
+Lemma live_hf_bound s hf : live_hf s hf = true -> hf < 2 * nf s.
+Proof.
+  unfold live_hf, live_f. intros L. apply andb_true_iff in L. destruct L as [L _]. apply Nat.ltb_lt in L. lia.
+Qed.
+
+Lemma ebu_check_sound s : ebu_check s = true -> ebu_exact s.
+Proof.
+  unfold ebu_check. rewrite !andb_true_iff. intros [[[[He Hlen] Hfaces] Hinc] Htab].
+  apply Nat.leb_le in Hlen. rewrite forallb_forall in Hfaces, Hinc, Htab.
+  split; [exact He|]. intros h hf.
+  assert (Hface_bound : forall f x, In x (face_at s f) -> x < 2 * ne s).
+  { intros f x Hx. unfold face_at in Hx. destruct (nth_In_or_default (faces s) f []) as [Hm|Hd].
+    - specialize (Hfaces _ Hm). rewrite forallb_forall in Hfaces. apply Nat.ltb_lt. apply Hfaces. exact Hx.
+    - rewrite Hd in Hx. destruct Hx. }
+  assert (Hhf_bound : In h (halfface s hf) -> h < 2 * ne s).
+  { intros Hin. destruct (In_halfface_face s hf h Hin) as [H|H].
+    - exact (Hface_bound _ _ H).
+    - pose proof (Hface_bound _ _ H) as Hb. apply opp_lt_even_bound in Hb. rewrite opp_involutive in Hb. exact Hb. }
+  assert (Hin_bound : In hf (hfs_at s h) -> hf < 2 * nf s /\ h < 2 * ne s).
+  { intros Hin. unfold hfs_at in Hin. destruct (nth_In_or_default (inc_hfs s) h []) as [Hm|Hd].
+    - specialize (Hinc _ Hm). rewrite forallb_forall in Hinc. specialize (Hinc hf Hin). apply Nat.ltb_lt in Hinc.
+      split; [exact Hinc|]. destruct (Nat.lt_ge_cases h (2 * ne s)); [assumption|].
+      rewrite nth_overflow in Hin by lia. destruct Hin.
+    - rewrite Hd in Hin. destruct Hin. }
+  assert (K : h < 2 * ne s -> hf < 2 * nf s -> (In hf (hfs_at s h) <-> live_hf s hf = true /\ In h (halfface s hf))).
+  { intros Hh Hhf. specialize (Htab h ltac:(apply in_seq; lia)). rewrite forallb_forall in Htab.
+    specialize (Htab hf ltac:(apply in_seq; lia)). apply eqb_prop in Htab.
+    rewrite <- memb_In, Htab, andb_true_iff, memb_In. reflexivity. }
+  split.
+  - intros Hin. destruct (Hin_bound Hin). apply K; assumption.
+  - intros [L I]. apply K; [exact (Hhf_bound I)|exact (live_hf_bound s hf L)|auto].
+Qed.
+
+Definition wf_faces_check (s : mesh) : bool :=
+  forallb (fun f => negb (live_f s f) || forallb (live_he s) (face_at s f)) (seq 0 (nf s)).
+
+Lemma wf_faces_check_sound s : wf_faces_check s = true -> wf_faces s.
+Proof.
+  unfold wf_faces_check. rewrite forallb_forall. intros H f h L Hin.
+  assert (Hf : f < nf s).
+  { unfold live_f in L. apply andb_true_iff in L. destruct L as [L _]. apply Nat.ltb_lt in L. exact L. }
+  specialize (H f ltac:(apply in_seq; lia)). rewrite L in H. simpl in H. rewrite forallb_forall in H. apply H. exact Hin.
+Qed.
+
+Definition no_parallel_check (s : mesh) : bool :=
+  forallb (fun h1 => forallb (fun h2 =>
+     negb (live_he s h1 && live_he s h2 && (he_from s h1 =? he_from s h2) && (he_to s h1 =? he_to s h2)) || (h1 =? h2))
+     (seq 0 (2 * ne s))) (seq 0 (2 * ne s)).
+
+Lemma no_parallel_check_sound s : no_parallel_check s = true -> no_parallel_edges s.
+Proof.
+  unfold no_parallel_check. rewrite forallb_forall. intros H h1 h2 L1 L2 F T.
+  specialize (H h1 ltac:(apply in_seq; pose proof (live_he_bound s h1 L1); lia)). rewrite forallb_forall in H.
+  specialize (H h2 ltac:(apply in_seq; pose proof (live_he_bound s h2 L2); lia)).
+  rewrite L1, L2, F, T, !Nat.eqb_refl in H. simpl in H. apply Nat.eqb_eq. exact H.
 Qed.
